@@ -631,8 +631,10 @@ pub fn check_duo(sc: &Scenario, partner: &Scenario, obs: &Observation, duo: &Duo
     // the partner's own environment / work directory / report oracles
     let (pv, pfacts, _) = crate::oracle::judge_one(partner, &duo.partner, true);
     for x in pv {
-        if x.property == "C18" {
-            out.push(v("C18", &x.class, x.nonce.as_deref(), format!("(the process running next to this one) {}", x.detail)));
+        // (C12: what a test case finds as the state of its predecessor must not come from the
+        // other process either)
+        if x.property == "C18" || x.property == "C12" {
+            out.push(v(&x.property, &x.class, x.nonce.as_deref(), format!("(the process running next to this one) {}", x.detail)));
         }
     }
     // undisturbed: the same exit status, reports and directories as alone
